@@ -417,6 +417,11 @@ def _combinators(prog, res):
             'tf.concat(%s, axis=%s) is not the column-wise concatenation of '
             'the outputs' % (norm_text(concat.args[0]), cax))
   gs = structural_guards(pc.node, concat) or []
+  def _pos(t, p):
+    while isinstance(t, ast.UnaryOp) and isinstance(t.op, ast.Not):
+      t, p = t.operand, not p
+    return t, p
+  gs = [_pos(t, p) for t, p in gs]
   res.check(('single_output', True) in [(_cfg_text(t), p) for t, p in gs],
             'Y3', 'parallel|single-output', pc.loc(concat),
             'concatenation only when single_output',
